@@ -6,7 +6,7 @@
    on the implementation objects by harness/props/c09.py after every step. *)
 From Coq Require Import ZArith List Bool.
 From Coq Require Import QArith.
-From Forsys Require Import Model.PyList Model.Interfaces Model.Resample Model.Heap Proofs.HeapProofs Proofs.ShiftProofs Proofs.ResampleProofs Proofs.ResampleConsistency Proofs.SelectionProofs.
+From Forsys Require Import Model.PyList Model.Interfaces Model.Resample Model.Heap Proofs.HeapProofs Proofs.ShiftProofs Proofs.ResampleProofs Proofs.ResampleConsistency Proofs.SelectionProofs Proofs.JoinProofs.
 Import ListNotations.
 
 Theorem C09_step_preserves : forall s o, Inv s -> Inv (hstep s o).
@@ -66,6 +66,24 @@ Example C09_resample_example :
   map snd (es st') = [(1, 11); (11, 2); (2, 21); (21, 1); (1, 31); (31, 2)] /\ cycles_joined st' = true.
 Proof. vm_compute. repeat split; reflexivity. Qed.
 
+(* ---- the merge path (join_two_vertices on two present vertices): in a mesh without self-loops whose cycles repeat no vertex, after the
+   merge every mesh edge ends at existing vertices, every cycle vertex exists, the two merged vertices are referenced nowhere and no cycle
+   repeats a vertex *)
+Theorem C09_merge_keeps_references : forall st mapper a b st' m',
+  has_key (vs st) a = true -> has_key (vs st) b = true -> a <> b -> refs_ok st ->
+  (forall k p q, In (k, (p, q)) (es st) -> p <> q) -> (forall c cyc, In (c, cyc) (cs st) -> NoDup cyc) ->
+  join_two st mapper a b = Some (st', m') ->
+  refs_ok st' /\ (forall c cyc, In (c, cyc) (cs st') -> NoDup cyc /\ ~ In a cyc /\ ~ In b cyc) /\
+  (forall k p q, In (k, (p, q)) (es st') -> p <> a /\ p <> b /\ q <> a /\ q <> b).
+Proof. exact join_two_keeps_references. Qed.
+Example C09_merge_example :
+  let st := mkV [(0, (0, 0)%Q); (1, (1, 0)%Q); (2, (1, 1)%Q); (3, (0, 1)%Q)] [(0, (0, 1)); (1, (1, 2)); (2, (2, 3)); (3, (3, 0))] [(0, [0; 1; 2; 3])] in
+  match join_two st [] 1 2 with
+  | Some (st', m') => cs st' = [(0, [0; 4; 3])] /\ map snd (es st') = [(0, 4); (4, 3); (3, 0)] /\ keys (vs st') = [0; 3; 4] /\ m' = [(1, 4); (2, 4)]
+  | None => False
+  end.
+Proof. vm_compute. repeat split; reflexivity. Qed.
+
 Example C09_example :
   let s := hrun [Create 0 [1; 2]; Create 1 [2; 3]; Replace 0 1 4; Delete 1]%Z in
   (own s 1, own s 2, own s 3, own s 4, items s) = ([], [0], [], [0], [(0, [4; 2])])%Z.
@@ -79,3 +97,4 @@ Print Assumptions C09_resample_cells_consistent.
 Print Assumptions C09_resampled_cycle_joined.
 Print Assumptions C09_resample_hyps_cycles_joined.
 Print Assumptions C09_resampled_cycle_joined_on_simple_meshes.
+Print Assumptions C09_merge_keeps_references.
